@@ -24,14 +24,25 @@ Challenges(m) == (IF "ntlm" \in m THEN {"NTLM", "Negotiate"} ELSE {})
                  \cup (IF "local" \in m THEN {"Basic"} ELSE {})
                  \cup (IF "kerberos" \in m THEN {"Negotiate"} ELSE {})
 
-\* ---- the table as a model (every configuration x request class) ----------------
-VARIABLES m, r
+\* ---- the front door as a system: one client sends requests one after another and keeps every cookie the
+\* gateway sets (jar = it holds cookies from an earlier request that reached the handler).  Whether a
+\* request reaches the handler is decided by that request alone: Handle does not read jar or n.
+VARIABLES m, r, reached, jar, n
+fvars == <<m, r, reached, jar, n>>
+Reqs == [scheme : Schemes, wellFormed : BOOLEAN, confirmed : BOOLEAN]
 Init == /\ m \in {x \in SUBSET Mechs : Startable(x)}
-        /\ r \in [scheme : Schemes, wellFormed : BOOLEAN, confirmed : BOOLEAN]
-Next == UNCHANGED <<m, r>>
-Spec == Init /\ [][Next]_<<m, r>>
+        /\ r \in Reqs /\ reached = ShouldReach(m, r) /\ jar = FALSE /\ n = 1
+Handle(q) == /\ n < 3
+             /\ r' = q /\ reached' = ShouldReach(m, q)
+             /\ jar' = (jar \/ reached)
+             /\ n' = n + 1 /\ UNCHANGED m
+Next == \E q \in Reqs : Handle(q)
+Spec == Init /\ [][Next]_fvars
 ExactlyOne == ShouldReach(m, r) # MayNotReach(m, r)
-DisabledSchemeNeverReaches == (~OpenAtHttp(m) /\ Serves(r.scheme) \notin m) => MayNotReach(m, r)
-NoCredentialsNeverReach == (~OpenAtHttp(m) /\ r.scheme \in {"none", "empty", "other"}) => MayNotReach(m, r)
+DisabledSchemeNeverReaches == (~OpenAtHttp(m) /\ Serves(r.scheme) \notin m) => ~reached
+NoCredentialsNeverReach == (~OpenAtHttp(m) /\ r.scheme \in {"none", "empty", "other"}) => ~reached
 SomethingToTry == ~OpenAtHttp(m) => Challenges(m) # {}
+\* C05 for a client with history: cookies of earlier confirmed requests open nothing
+HistoryOpensNothing == (jar /\ MayNotReach(m, r)) => ~reached
+ReachIffConfirmed == reached <=> ShouldReach(m, r)
 =============================================================================
